@@ -11,7 +11,7 @@ type Bounds struct {
 
 // Extend increases the extent of b1 to include b2.
 func (b *Bounds) Extend(b2 *Bounds) {
-	if b2 == nil {
+	if b2 == nil || b2.Empty() {
 		return
 	}
 	b.extendPoint(b2.Min)
